@@ -52,6 +52,7 @@ PROPS = {
     'C09': dict(
         rules=[lambda c: sched.def_path(c, (sched.FB,)),
                lambda c: purity.pur_arg(c, ('filters',)),
+               lambda c: sched.avg_rate(c, (sched.FB,)),
                lambda c: sched.sched_epochs(c, (sched.FB,)),
                lambda c: sched.sched_mcursor(c, (sched.FB,)),
                lambda c: sched.sched_no_overtake(c, (sched.FB,)),
@@ -79,6 +80,7 @@ PROPS = {
     'C10': dict(
         rules=[lambda c: sched.def_path(c, (sched.FF,)),
                lambda c: purity.pur_arg(c, ('filters',)),
+               lambda c: sched.avg_rate(c, (sched.FF,)),
                lambda c: sched.sched_epochs(c, (sched.FF,)),
                lambda c: sched.sched_mcursor(c, (sched.FF,)),
                lambda c: sched.sched_no_overtake(c, (sched.FF,)),
@@ -117,8 +119,10 @@ PROPS = {
                    'second-order (lever/Earth-radius) terms of the position Jacobian']),
     'C02': dict(
         rules=[kernel.row_rec, integrator.buf_rules, integrator.carrier, integrator.carrier_sync,
-               integrator.predict_eff, integrator.last_row, integrator.kernel_via],
-        decided=['get_time / get_pva return the latest row',
+               integrator.predict_eff, integrator.last_row, integrator.kernel_via, rot.rot_exp],
+        decided=['the rotation routine writes all nine entries of its output on every path (the '
+                 'kernel re-uses its scratch matrices from one iteration to the next)',
+                 'get_time / get_pva return the latest row',
                  'kernel writes stay inside the buffers for every chunking and capacity (linear '
                  'arithmetic proof on both paths of the capacity test)',
                  'all state carriers written together and with matching columns; set_pva writes '
@@ -129,8 +133,11 @@ PROPS = {
     'C13': dict(
         rules=[integrator.alt_freeze, integrator.es_copy, integrator.es_2drows,
                meas.meas_shape, meas.meas_noise, kernel.row_rec, errmodel.em_2d,
-               integrator.wa_forward, integrator.predict_eff],
-        decided=['the 2-row noise covariance is the north/east block of the 3-row one',
+               integrator.wa_forward, integrator.predict_eff, errmodel.jac_shape],
+        decided=['the measurement Jacobians of the error model have 2 rows (position, NED '
+                 'velocity) and 7 columns without altitude on every path, with and without a '
+                 'lever arm',
+                 'the 2-row noise covariance is the north/east block of the 3-row one',
                  'the rows handed out are the rows the kernel wrote, labelled with the documented '
                  'Trajectory columns in the order of the buffers (the frozen altitude and the zero '
                  'vertical velocity reach the columns alt and VD)',
@@ -158,6 +165,7 @@ PROPS = {
                    'algebraically)']),
     'C08': dict(
         rules=[kal.vl_rules, kal.q_psd, kal.div_zero, layout.assembly,
+               lambda c: purity.pur_arg(c, ('kalman',)),
                lambda c: dtype.dtype_inherit(c, ('kalman', 'filters')),
                lambda c: sched.sched_handover(c, (sched.FB, sched.FF)),
                lambda c: sched.sched_progress(c, (sched.FB, sched.FF))],
@@ -332,7 +340,7 @@ PROPS = {
                    'consistency (propagate_errors: decided; filters: exact Van Loan, C08)']),
     'C03': dict(
         rules=[frames.frame_suffix, simrules.sim_inc, simrules.sim_struct, simrules.sim_kin,
-               simrules.sim_integ, geo.wgs_const],
+               simrules.sim_integ, geo.wgs_const, simrules.sim_spline_bc],
         decided=['rate-type readings satisfy the navigation equations assembled from earth.* for an '
                  'arbitrary smooth trajectory (symbolic, splines idealised as exact derivatives; '
                  'position and position+velocity forms); a body at rest senses exactly Earth rate '
